@@ -115,7 +115,9 @@ def particle_number_measurement(
 ) -> "List[Branch]":
     probability_map = _get_measurement_probability_map(state, instruction.modes)
 
-    frequency_map = sample_from_probability_map(probability_map, shots)
+    frequency_map = sample_from_probability_map(
+        probability_map, shots, rng=state._config._python_rng
+    )
 
     branches = []
 
